@@ -59,13 +59,50 @@ package reghttp
 // variant of the loop. (Resp.Read resumes by calling next() on the same Resp, so the budget is
 // cumulative over connection drops; Seek compensates its own decrement.)
 //@ func (*Resp).next() (err)
-//@   prop C12
+//@   prop C12, C17
 //@   entry-assume resp != nil && resp.client != nil
 //@   owns resp.retryCount  // the Resp is allocated by Do after the request and its closures exist; only methods called on this Resp write it
 //@   owns resp.client
+//@   owns resp.throttleDone
 //@   owns resp.client.retryLimit  // configuration, written only by the constructor options
 //@   loop 1 ()
 //@     decreases attempts-bounded: c.retryLimit + 2 - resp.retryCount
+//@     invariant no-slot-held-between-attempts: !$attemptSlot && resp.throttleDone == nil
+//@   entry-assume !$attemptSlot
+//@   on-call Acquire: $attemptSlot = (result1 == nil)
+//@   on-call var:throttleDone: $attemptSlot = false
+//@   ensures failure-holds-no-slot: err != nil ==> !$attemptSlot && resp.throttleDone == nil
+//@   ensures success-hands-the-slot-to-the-response: err == nil ==> $attemptSlot && resp.throttleDone != nil
+
+// ---- C17: the holder side of the host throttle ----
+// A response holds at most one slot of its host's throttle, in resp.throttleDone, from a successful
+// request until Close. Ghost $attemptSlot: the attempt in progress has acquired a slot that it has
+// neither released nor handed to the response. The request loop asks for a slot only while
+// neither the attempt nor the response holds one (a response that resumes after a short read or
+// is rewound would otherwise wait for a slot that only it can free, and on success overwrite -
+// lose - the one it held); a held slot is never overwritten; Close leaves nothing held.
+//@ ghost $attemptSlot bool
+//@ callsite (*~/internal/pqueue.Queue[T]).Acquire(ctx, e)
+//@   prop C17
+//@   name throttle.Acquire/request-loop
+//@   in ~/internal/reghttp
+//@   infunc Resp\)\.next$
+//@   requires holds-no-slot-yet: !$attemptSlot && caller.resp.throttleDone == nil
+//@ callsite var:throttleDone()
+//@   prop C17
+//@   name throttleDone()/request-loop
+//@   in ~/internal/reghttp
+//@   infunc Resp\)\.next$
+//@   requires releases-a-held-slot-once: $attemptSlot
+//@ fieldwrite ~/internal/reghttp.Resp.throttleDone
+//@   prop C17
+//@   name Resp.throttleDone/reghttp
+//@   in ~/internal/reghttp
+//@   requires held-slot-never-overwritten: v != nil ==> base.throttleDone == nil
+//@ func (*Resp).Close() (err)
+//@   prop C17
+//@   entry-assume resp != nil
+//@   ensures nothing-held-after-close: resp.throttleDone == nil
 
 // ---- C11: credentials only for the own host, never in clear text to a TLS host ----
 // (3) the credential function a registry host hands to its Auth answers for that host's own
